@@ -111,6 +111,17 @@ def run(chk, replay=None):
               "A\x00B", "\x00", "A\n\x00", "“a\x00”", "注：\x00\nB", "如果A：\n    B\n拦截C：\n    D\nE", "A\n拦截B：\n    C\nD\n"]:
         inputs.append(("shape", t))
 
+    # ---- multi-line tokens whose inner line breaks are two characters long (CR LF, LF CR), unfinished at the end of the text or
+    # followed by an error on their last line: the line table and the quoted line depend on where the token's lines start
+    for eol in ["\r\n", "\n\r", "\n", "\r"]:
+        for opener, closer in [("/*", "*/"), ("注：「", "」"), ("注：“", "”"), ("「", "」"), ("“", "”"), ("『", "』")]:
+            for pre in ["", "令A设为1" + eol, "如果A：" + eol + "    B" + eol]:
+                body = rng.choice(["未完", "甲" + eol + "乙丙", "x"])
+                inputs.append(("multiline-eof", pre + opener + body + eol))                      # never closed
+                inputs.append(("multiline-eof", pre + opener + body + eol + "丁" + closer))        # closed on a later line
+                inputs.append(("multiline-error", pre + "令B设为" + opener + "甲" + eol + "乙丙" + closer + " 令"))   # error after it
+                inputs.append(("multiline-error", pre + opener + "甲" + eol + eol + "乙" + closer + " ）"))
+
     texts = [t for _, t in inputs]
     outs = fc.parse_many(texts, timeout_ms=1000)
     for (kind, text), out in zip(inputs, outs):
